@@ -16,6 +16,11 @@ encoders and decoders and records (value, encoding, decoded) triples.
          _remove_empty that LdapObject.create applies: LDAP stores no empty
          attribute) -> from_entry; recorded: N(x), N(N(x)) and the entry of N(x)
 
+  dn     identifier <-> distinguished name: the real LdapObject.create of
+         CellAllocation / Partition / Application (on the real _ldap.Admin.dn,
+         no connection; the add is captured) builds the DN and the entity
+         attribute; from_entry(entry, dn) decodes (_dn2cellalloc_id,
+         _dn2partition_id, the entity attribute)
   ldapupd pairs (v1, v2) of one schema: the directory holds the entry
          LdapObject.create makes of v1; LdapObject.update's entry of v2 goes
          through the REAL Admin.update (fetch the mentioned attributes, real
@@ -352,6 +357,46 @@ class Codecs:
                     n=dict(schema=v['schema'], obj=to_abs(n1)),
                     d=dict(schema=v['schema'], obj=to_abs(n2)))
 
+    # -- dn
+    def dn(self, v):
+        made = []
+
+        class _Conn(_ldap.Admin):
+            def add(self, dn, object_class=None, attributes=None):    # pylint: disable=arguments-differ
+                made.append((dn, dict(attributes or {})))
+
+        conn = _Conn(None, 'dc=verif')
+        kind = v['kind']
+        if kind == 'cellalloc':
+            obj = _ldap.CellAllocation(conn)
+            obj.create([v['c'], '%s/%s' % (':'.join(v['a']), v['b'])], {'cpu': '0%'})
+        elif kind == 'partition':
+            obj = _ldap.Partition(conn)
+            obj.create([v['b'], v['c']], {'cpu': '0%'})
+        elif kind == 'app':
+            obj = _ldap.Application(conn)
+            obj.create(v['b'], {'cpu': '10%'})
+        else:
+            raise tlc.MachineryError('unknown dn kind %r' % (kind,))
+        if len(made) != 1:
+            raise tlc.MachineryError('create issued %d adds' % len(made))
+        dn, entry = made[0]
+        try:
+            back = obj.from_entry(entry, dn)
+        except Exception as e:  # pylint: disable=broad-except
+            return dn, err('%s: %s' % (type(e).__name__, e))
+        if kind == 'cellalloc':
+            ident = back.get('_id')
+            if not isinstance(ident, str) or ident.count('/') != 2:
+                return dn, err('decoded _id %r' % (ident,))
+            tenants, alloc, cell = ident.split('/')
+            return dn, dict(kind=kind, a=tenants.split(':'), b=alloc, c=cell)
+        if kind == 'partition':
+            if back.get('_id') != back.get('partition'):
+                return dn, err('_id %r but partition %r' % (back.get('_id'), back.get('partition')))
+            return dn, dict(kind=kind, a=[], b=back.get('partition'), c=back.get('cell'))
+        return dn, dict(kind=kind, a=[], b=back.get('_id'), c='')
+
     # -- ldap update
     @staticmethod
     def _family(attr):
@@ -445,7 +490,7 @@ def record(domain, formats=None):
     c = Codecs()
     try:
         out = []
-        for fmt in formats or ['rule', 'uniq', 'uid', 'event', 'evdict', 'zk', 'ldap', 'ldapupd']:
+        for fmt in formats or ['rule', 'uniq', 'uid', 'event', 'evdict', 'dn', 'zk', 'ldap', 'ldapupd']:
             values = domain['event' if fmt == 'evdict' else fmt]
             out.append(dict(fmt=fmt, items=[c.run(fmt, v) for v in values]))
         return out
